@@ -38,7 +38,10 @@ XS = 'http://www.w3.org/2001/XMLSchema'
 ALLOW = ['all', 'remote', 'local', 'sandbox', 'none']
 SOURCE_KINDS = ['path', 'file_url', 'text_base_url', 'open_file', 'text_remote_base']
 REMOTE_BASE = 'http://stub/sand'
-MECHS = ['include', 'import', 'redefine', 'override', 'hint', 'locations', 'uri_mapper', 'schemaless', 'locations_late']
+MECHS = ['include', 'import', 'redefine', 'override', 'hint', 'locations', 'uri_mapper', 'schemaless', 'locations_late',
+         # the hinting DOCUMENT lies outside the directory of the schema (the caller names it): what it hints at is still
+         # judged by the schema's allow mode
+         'hint_doc_outside']
 
 _EVENTS = None
 _ROOT = None
@@ -199,7 +202,7 @@ def main_schema(mech, loc, ver):
         stmt = '<xs:import namespace="urn:o"/>'
     elif mech == 'uri_mapper':
         stmt = '<xs:include schemaLocation="mapped.xsd"/>'
-    if mech in ('hint', 'locations_late'):
+    if mech in ('hint', 'locations_late', 'hint_doc_outside'):
         # hints are honoured on non-root elements: r holds one strictly processed foreign child
         return ('<xs:schema xmlns:xs="%s"><xs:element name="r"><xs:complexType><xs:sequence>'
                 '<xs:any namespace="##other" processContents="strict"/></xs:sequence></xs:complexType>'
@@ -225,6 +228,11 @@ def run_row(tree, ver, allow, skind, mech, target, spname, loc):
     fobj = None
     docp = os.path.join(tree.sand, 'doc.xml')
     if mech == 'hint':
+        with open(docp, 'w') as f:
+            f.write('<r xmlns:xsi="http://www.w3.org/2001/XMLSchema-instance"><o:marker_%s xmlns:o="urn:o" '
+                    'xsi:schemaLocation="urn:o %s">x</o:marker_%s></r>' % (target, loc, target))
+    if mech == 'hint_doc_outside':
+        docp = os.path.join(tree.base, 'out', 'doc.xml')
         with open(docp, 'w') as f:
             f.write('<r xmlns:xsi="http://www.w3.org/2001/XMLSchema-instance"><o:marker_%s xmlns:o="urn:o" '
                     'xsi:schemaLocation="urn:o %s">x</o:marker_%s></r>' % (target, loc, target))
@@ -292,7 +300,7 @@ def run_row(tree, ver, allow, skind, mech, target, spname, loc):
                     outcome = 'built+valid' if v else 'built+invalid'
                 except xmlschema.XMLSchemaException as e:
                     outcome = 'validate:' + type(e).__name__
-            if mech == 'hint':
+            if mech in ('hint', 'hint_doc_outside'):
                 try:
                     v = s.is_valid(docp, use_location_hints=True)
                     outcome = 'built+valid' if v else 'built+invalid'
@@ -351,7 +359,9 @@ def judge(tree, ver, allow, skind, mech, target, spname, loc, st):
 
     def rec(kind, expected, observed):
         return {'kind': kind, 'input': row, 'expected': expected, 'observed': observed, 'key': kind + '|' + key,
-                'classes': ['sandbox-prefix'] if (allow == 'sandbox' and target == 'evil') else []}
+                'classes': (['sandbox-prefix'] if (allow == 'sandbox' and target == 'evil') else []) +
+                           (['sandbox-hinting-document-outside'] if (allow == 'sandbox' and mech == 'hint_doc_outside'
+                                                                      and skind != 'text_base_url') else [])}
     if outcome.startswith('OTHER:'):
         out.append(rec('non_library_exception', 'library error or success', outcome))
     # 1. confinement: every observed open/request must be of an allowed class
@@ -362,6 +372,8 @@ def judge(tree, ver, allow, skind, mech, target, spname, loc, st):
             continue
         if c == 'main' and skind == 'open_file' and ev[1].endswith(('main.xsd', 'doc.xml')):
             continue   # opened by the harness itself before the call
+        if mech == 'hint_doc_outside' and ev[1].endswith('/out/doc.xml'):
+            continue   # the document the caller asked to validate
         if not allowed(allow, c):
             out.append(rec('fetch_outside_allowed_class',
                            'no open/request of a %r location under allow=%s' % (c, allow),
@@ -371,7 +383,7 @@ def judge(tree, ver, allow, skind, mech, target, spname, loc, st):
     if not ok_target and ('marker_' + target) in markers:
         out.append(rec('denied_location_influences_schema', 'marker_%s absent' % target, markers))
     # 3. the main source itself
-    if mech in ('hint', 'schemaless', 'locations_late') and not ok_target and outcome == 'built+valid':
+    if mech in ('hint', 'schemaless', 'locations_late', 'hint_doc_outside') and not ok_target and outcome == 'built+valid':
         out.append(rec('denied_location_influences_verdict', 'document invalid (strict wildcard, no declaration)',
                        outcome))
     if main_is_url and not allowed(allow, 'main') and outcome.startswith('built'):
@@ -390,8 +402,17 @@ def rows(tree):
         for mech in MECHS:
             if mech == 'override' and ver == '10':
                 continue
-            sp, _ = tree.spellings('imp' if mech in ('import', 'hint', 'locations', 'schemaless', 'locations_late') else 'inc')
+            sp, T_ = tree.spellings('imp' if mech in ('import', 'hint', 'locations', 'schemaless', 'locations_late',
+                                                     'hint_doc_outside') else 'inc')
+            if mech == 'hint_doc_outside':
+                # relative hints resolve against the directory of the document (out/)
+                sp = [('out', 'relative_to_doc', os.path.basename(T_['out'])), ('out', 'absolute', T_['out']),
+                      ('out', 'file_url', 'file://' + T_['out']), ('in', 'absolute', T_['in']),
+                      ('in', 'dotted_from_doc', '../sand/' + os.path.basename(T_['in'])),
+                      ('evil', 'absolute', T_['evil']), ('remote', 'http', 'http://stub/imp_remote.xsd')]
             for allow, skind in itertools.product(ALLOW, SOURCE_KINDS):
+                if mech == 'hint_doc_outside' and skind == 'text_remote_base':
+                    continue
                 spk = sp if skind != 'text_remote_base' else remote_base_spellings(
                     tree, 'imp' if mech in ('import', 'hint', 'locations', 'schemaless', 'locations_late') else 'inc')
                 for target, spname, loc in spk:
